@@ -731,6 +731,8 @@ class BufferAsyncCalls(Generic[T]):
                 async for i in iterable:
                     inputs.add(i)
             except BaseException:  # noqa
+                if _cancel_requested():
+                    raise  # This task is being cancelled, don't swallow
                 logger.exception("Failed to get args from: %r", iterable)
 
         # Get first element, block infinitely until one appears
@@ -757,6 +759,8 @@ class BufferAsyncCalls(Generic[T]):
             try:
                 await _load_inputs(await self._getting)
             except (aio.TimeoutError, aio.CancelledError):
+                if _cancel_requested():
+                    raise  # Not just the q.get(), this task was cancelled
                 await self._run_func(inputs)
             else:
                 self.q.task_done()
@@ -774,6 +778,8 @@ class BufferAsyncCalls(Generic[T]):
             if inputs:  # Could be empty if all empty iterators
                 await self.func(inputs)
         except BaseException as e:  # noqa
+            if _cancel_requested():
+                raise  # This task is being cancelled, don't retry
             logging.exception("Failed to run %s, retrying", self.func)
         else:
             self.event.set()
@@ -1367,6 +1373,16 @@ async def run_aw_threadsafe(aw: Awaitable[T], loop: Loop) -> T:
     """
     coro = aw if aio.iscoroutine(aw) else _aw_to_coro(aw)
     return await aio.wrap_future(run_coro_ts(coro, loop))
+
+
+def _cancel_requested() -> bool:
+    """
+    Check if the cancellation of the current task itself was requested
+    as opposed to something it was waiting for. Requires Python 3.11+,
+    always False on older versions.
+    """
+    task = aio.current_task()
+    return bool(task is not None and getattr(task, 'cancelling', int)())
 
 
 async def _aw_to_coro(aw: Awaitable[T]) -> T:
